@@ -121,6 +121,9 @@ class Schema:
                     raise UndefinedBehaviour('a member name is a %s node' % k.kind)
                 out.append((k.val, self.read(v.block.slots[2 * j + 1], depth + 1)))
             return T('obj', None, out)
+        if v.kind == 'str' and v.length != len(v.val):
+            # the node covers `length` bytes starting at the string it was given: more than the string has, or fewer
+            return T('str', (v.val + '\\?' * 64)[:v.length])
         return T(v.kind, v.val)
 
     def parse_into(self, M, root, text, cap=64):
@@ -136,6 +139,14 @@ class Schema:
         M.ledger.free(stack.rid, 'node stack')
         stack.freed = True
         return ok
+
+    def build_fresh(self, M, text, cap=64):
+        """Parse(text) with the plain SAX handler: every event in document order (a Key is an event like a String);
+        returns (ok, node stack block, np_)"""
+        stack = Block(M.ledger, cap, 1)
+        self.mem = {'st_': Ptr(stack, 0, 1), 'np_': 0, 'cap_': cap, 'parent_': 0, 'alloc_': 'ALLOC'}
+        ok = self.drive(M, text)
+        return ok, stack, self.mem['np_']
 
     def ev(self, M, name, *args):
         f = self.hfns.get(name)
